@@ -430,7 +430,8 @@ def queue_rules(R, P):
     geti = [e for e in f.calls("aws_array_list_get_at") if argstr(f, e.node, 0) == "queue->container"]
     inval = [e for e in f.field_accesses(rec="aws_priority_queue_node", field="current_index", modes=("w",))]
     sift = f.calls("s_sift_either")
-    R.require(len(swp) == 1 and len(popc) == 1 and len(popb) == 1 and len(getb) == 1 and len(inval) == 1 and len(sift) == 1 and len(geti) == 1, "s_remove_node: step missing")
+    # (each step may occur once per arm when the `already last` case and the general case are written as two branches)
+    R.require(len(swp) >= 1 and len(popc) >= 1 and len(popb) >= 1 and len(getb) >= 1 and len(inval) >= 1 and len(sift) >= 1 and len(geti) == 1 and len(popc) == len(popb) == len(getb) == len(inval) and len(swp) == len(sift), "s_remove_node: step missing")
     if swp and popc and popb and getb and inval and sift and geti:
         # roles, not spellings: the removed slot is the index parameter; `last` is whatever the exchange's other operand is,
         # and it must be length(container) - 1 (seen through temporaries)
@@ -460,12 +461,24 @@ def queue_rules(R, P):
         order = [("swap", swp, "pop-element", popc), ("swap", swp, "read-last-handle", getb), ("read-last-handle", getb, "mark-not-in-queue", inval), ("mark-not-in-queue", inval, "pop-handle", popb),
                  ("pop-element", popc, "re-sift", sift), ("pop-handle", popb, "re-sift", sift)]
         for an, A, bn, B in order:
-            okc = all((b_ in RU.reach_from(f, a_)) and (a_ not in RU.reach_from(f, b_)) for a_ in A for b_ in B)
+            okc, linked = True, 0
+            for b_ in B:
+                before = [a_ for a_ in A if b_ in RU.reach_from(f, a_)]
+                after = [a_ for a_ in A if a_ in RU.reach_from(f, b_)]
+                linked += bool(before)
+                # an arm that removes the last slot has no exchange and no re-sift; every other step needs its predecessor
+                okc = okc and not after and (bool(before) or an == "swap")
+            if bn == "re-sift":
+                okc = okc and all(any(b_ in RU.reach_from(f, a_) for a_ in A) for b_ in B)
+            okc = okc and linked >= 1
             R.check(okc, "INVALIDATE", "remove:%s<%s" % (an, bn), where(f, B[0]), "%s precedes %s" % (an, bn), "%s can happen before %s: the handle invalidated is not the departing element's / the heap is re-ordered with the departing element still in it" % (bn, an))
-        R.check(getb[0].node["callee"] == "aws_array_list_back" or is_last(RU.arg(f, getb[0].node, 2)), "INVALIDATE", "remove:reads-handle-of-last-slot", where(f, getb[0]), "the handle read is the one of the (former) last slot, where the removed element now is",
-                "the handle invalidated is read from slot %s, not from the last slot" % argstr(f, getb[0].node, 2, addr=False))
-        a_ = _assignment_of(f, inval[0])
-        R.check(a_ is not None and f.is_const(a_["a"][1]) == SIZE_MAX and f.show(inval[0].node["a"][0]) == argstr(f, getb[0].node, 1), "INVALIDATE", "remove:marks-SIZE_MAX", where(f, inval[0]), "departing handle marked SIZE_MAX")
+        R.check(all(g_.node["callee"] == "aws_array_list_back" or is_last(RU.arg(f, g_.node, 2)) for g_ in getb), "INVALIDATE", "remove:reads-handle-of-last-slot", where(f, getb[0]), "the handle read is the one of the (former) last slot, where the removed element now is",
+                "the handle invalidated is read from slot %s, not from the last slot" % [argstr(f, g_.node, 2, addr=False) for g_ in getb])
+        okm = True
+        for iv in inval:
+            a_ = _assignment_of(f, iv)
+            okm = okm and a_ is not None and f.is_const(a_["a"][1]) == SIZE_MAX and any(f.show(iv.node["a"][0]) == argstr(f, g_.node, 1) and iv in RU.reach_from(f, g_) for g_ in getb)
+        R.check(okm, "INVALIDATE", "remove:marks-SIZE_MAX", where(f, inval[0]), "departing handle marked SIZE_MAX")
 
         def differs(ev):
             """ev is reached only when the removed slot is not the last one"""
@@ -476,8 +489,8 @@ def queue_rules(R, P):
                     if (f.show(l_) == idx and is_last(r_)) or (f.show(r_) == idx and is_last(l_)):
                         return True
             return False
-        R.check(differs(sift[0]) and argstr(f, sift[0].node, 1, addr=False) == idx, "HEAP-SHAPE", "remove:re-sift-moved-element", where(f, sift[0]), "the element moved into the hole is re-sifted")
-        R.check(differs(swp[0]), "INVALIDATE", "remove:no-self-swap", where(f, swp[0]), "swap skipped when the element already is last")
+        R.check(all(differs(s_) and argstr(f, s_.node, 1, addr=False) == idx for s_ in sift), "HEAP-SHAPE", "remove:re-sift-moved-element", where(f, sift[0]), "the element moved into the hole is re-sifted")
+        R.check(all(differs(s_) for s_ in swp), "INVALIDATE", "remove:no-self-swap", where(f, swp[0]), "swap skipped when the element already is last")
 
     # clear / node_init / is_in_queue
     f = fns["aws_priority_queue_clear"]
